@@ -1092,7 +1092,8 @@ class SubElementProperty(_ElementBase):
             value_class = self.value_class.value_class_from_node(sub_node)
             value = value_class.from_node(sub_node)
         except ElementNotFoundError:
-            pass
+            # never hand out the class-level default object itself: the instance may modify its value
+            value = copy.deepcopy(self._default_py_value)
         return value
 
     def update_xml_value(self, instance: Any, node: xml_utils.LxmlElement):
@@ -1155,7 +1156,7 @@ class ContainerProperty(_ElementBase):
                 value_class = self.value_class
             value = value_class.from_node(sub_node)
         except ElementNotFoundError:
-            pass
+            value = copy.deepcopy(self._default_py_value)
         return value
 
     def update_xml_value(self, instance: Any, node: xml_utils.LxmlElement):
